@@ -132,7 +132,7 @@ func explain(cs *Case, o *Outcome) (best []Viol, ok bool) {
 			continue
 		}
 		vs = append(vs, reportViols(cs, o, mask, absentAt, dupName)...)
-		if mask == o.Hint && o.Server != "git" {
+		if o.Server != "git" && o.Log != nil && logConsistent(cs.Cmds, mask, o.Log) && (!hintOK || len(vs) < len(hinted)) {
 			hinted, hintOK = vs, true
 		}
 		pop := bits.OnesCount(uint(mask))
